@@ -615,6 +615,8 @@ class _Run:
                 self.involve(ids=[out[1]])
             elif isinstance(r, list) and len(r) == 2 and r[0] == "byvalue":
                 out = ("value", r[1])
+            elif isinstance(r, (list, tuple, set, frozenset)) and len(r) == 1 and str(list(r)[0]).startswith("bv:"):
+                out = ("value", int(str(list(r)[0])[3:]))      # a pool object that IS a set, as the value it is (json, msgpack)
             else:
                 out = ("other", repr(r)[:200])
             del r
@@ -1013,7 +1015,7 @@ class RegistryWorld(World):
               "weak_collected", "weak_collected_unknown", "duplicate_refused", "reserved_refused", "forced", "class_registered",
               "generated_id", "registered_listing", "serpent", "json", "msgpack", "multiplex", "thread",
               "shape_len0", "shape_bool0", "shape_state", "par_make", "par_overlap", "par_gc_weak", "strong_survives_gc",
-              "shape_inst", "shape_noweak", "shape_eq", "shape_vars", "return_marshal_by_value", "registered_object_returned_by_value_marshal", "registered_in_two_daemons", "second_daemon_closed", "return_proxy_two_daemons", "register_failed_frozen", "register_failed_noweak", "tracked_weak_collected"]
+              "shape_inst", "shape_noweak", "shape_eq", "shape_vars", "shape_setlike", "return_marshal_by_value", "registered_object_returned_by_value_marshal", "registered_in_two_daemons", "second_daemon_closed", "return_proxy_two_daemons", "register_failed_frozen", "register_failed_noweak", "tracked_weak_collected"]
     RULE = ("plan = (server type, generator tier core|extended, 3-10 steps (thorough: -16) of register / unregister / uriFor / "
             "proxyFor / call / return-object / gc / registered over 3 pool objects + 2 classes + ids id0..id2, generated, "
             "colliding ('the current or last id of object k'), reserved; force only in the extended tier; weak for objects; "
@@ -1339,6 +1341,28 @@ class RegistryWorld(World):
                 shapes[a] = "plain"
             plan["focus"] = "two-daemons"
             plan["sweep"] = True
+        if "focus" not in plan and rng.random() < 0.05:
+            # focus shape "class derived from a builtin value type": the pool object is a set with remote methods. Registered it
+            # must arrive as a proxy with every auto-proxying serializer, unregistered as the value it is (marshal kept away)
+            a = rng.randrange(3)
+            ida = "@o%d" % a
+            del ops[:]
+            for _ in range(rng.choice([0, 0, 1, 2])):
+                o = self._op(rng, "core")
+                if o.get("x") != ["o", a] and o.get("k") != a and o.get("id") != ida:
+                    ops.append(o)
+            if rng.random() < 0.3:
+                ops.append({"op": "ret", "k": a, "ser": rng.choice(RET_SERS)})
+            ops.append({"op": "reg", "x": ["o", a], "id": rng.choice([None, "id0"]), "force": False, "weak": rng.random() < 0.25})
+            for _ in range(rng.randint(1, 3)):
+                ops.append(rng.choice([{"op": "ret", "k": a, "ser": rng.choice(RET_SERS)}, {"op": "ret", "k": a, "ser": rng.choice(RET_SERS)},
+                                       {"op": "call", "id": ida, "ser": rng.choice(SERIALIZERS)},
+                                       {"op": "proxy", "x": ["o", a], "ser": rng.choice(SERIALIZERS)}]))
+            if rng.random() < 0.4:
+                ops.append({"op": "unreg", "by": rng.choice(["id", "obj"]), "id": ida, "x": ["o", a]})
+                ops.append({"op": "ret", "k": a, "ser": rng.choice(RET_SERS)})
+            shapes[a] = "setlike"
+            plan["focus"] = "builtin-subclass"
         plan["shapes"] = shapes
         if "focus" not in plan and rng.random() < 0.11:
             # concurrent factory calls: thread server, line pre-emption inside the registration code
